@@ -147,6 +147,46 @@ fn main() {
             println!("inputs1={}", join(&r.1));
             println!("grandparents={}", join(&r.2));
         }
+        // snapshot_list op:arg ... : new:i takes a snapshot after the key was overwritten (value "v<i>"), delete:k releases the k-th live
+        // snapshot; then the memtable is flushed and the whole key space compacted twice (so that shadowed entries may be dropped);
+        // every live snapshot must still read the value it saw
+        "snapshot_list" => {
+            use raindb::{ReadOptions, WriteOptions};
+            let mut o = raindb::DbOptions::with_memory_env();
+            o.db_path = "db".to_string();
+            o.create_if_missing = true;
+            let db = raindb::DB::open(o).expect("open");
+            let mut live: Vec<(raindb::Snapshot, String)> = vec![];
+            for (i, t) in a[1..].iter().enumerate() {
+                let (name, arg) = t.split_once(':').unwrap();
+                if name == "new" {
+                    let val = format!("v{}", i);
+                    db.put(WriteOptions::default(), b"key".to_vec(), val.clone().into_bytes()).unwrap();
+                    live.push((db.get_snapshot(), val));
+                } else {
+                    let (snap, _) = live.remove(arg.parse::<usize>().unwrap());
+                    db.release_snapshot(snap);
+                }
+            }
+            // first flush: the versions land in one table at a deeper level; a newer version is then flushed above it and the
+            // manual compaction merges the two tables, applying the keep / drop rule with the oldest live snapshot as bound
+            db.compact_range(None..None);
+            db.put(WriteOptions::default(), b"key".to_vec(), b"latest".to_vec()).unwrap();
+            db.compact_range(None..None);
+            let (mut wrong, mut first) = (0usize, String::new());
+            for (snap, val) in &live {
+                let got = db.get(ReadOptions { snapshot: Some(snap.clone()), ..ReadOptions::default() }, b"key").map(|v| String::from_utf8_lossy(&v).to_string()).unwrap_or_else(|e| format!("{:?}", e));
+                if &got != val {
+                    wrong += 1;
+                    if first.is_empty() {
+                        first = format!("snapshot of {} reads {}", val, got);
+                    }
+                }
+            }
+            println!("live={}", live.len());
+            println!("wrong={}", wrong);
+            println!("first_wrong={}", first);
+        }
         // trivial_move n0 n1 : level 1 holds n0 (1..2) adjacent files which are the chosen inputs, level 2 holds n1 files that
         // overlap them; after the real input finalisation the manifest is asked whether this is a trivial move
         "trivial_move" => {
